@@ -1,6 +1,6 @@
 (* C08 — diagnostic and housekeeping options never change what is parsed.  Statements only. *)
 From Coq Require Import List NArith Bool.
-From HV Require Import TokIR.IR TokIR.Interp TokIR.Checks Gen.GenHtmlTok Gen.GenXmlTok Inst.InstHtmlTok Inst.InstXmlTok.
+From HV Require Import TokIR.IR TokIR.Interp TokIR.Checks TokIR.QueueSim TokIR.BulkSim Gen.GenHtmlTok Gen.GenXmlTok Inst.InstHtmlTok Inst.InstXmlTok Inst.InstBulk.
 Import ListNotations.
 
 (* exact_errors switches every bulk read to the character-at-a-time path.  For every bulk state of the regenerated
@@ -28,3 +28,65 @@ Theorem C08_chain_ok_sound :
   chain_ok seqb set dflt b = true -> in_set set c = false -> strip_err (resolve c b) = dflt.
 Proof. exact @chain_ok_resolve. Qed.
 Print Assumptions C08_chain_ok_sound.
+
+(* WHOLE RUNS (TokIR/BulkSim.v, html): exact_errors changes nothing but parse errors and the cutting of text into
+   character tokens.  The chunked-queue interpreter - the one that runs against the Rust tokenizer - in the DEFAULT mode
+   (exact_errors = false: bulk reads up to the end of the first buffer, SIMD scan of the data state with its own newline
+   count, no current_char update, no bad-character errors) against the same interpreter with exact_errors = true (one
+   character at a time), from the same machine, for every list of chunks, sink script, injected text and fuel: if the
+   default-mode run ends regularly (no fuel exhaustion), the exact-mode run with any fuel from some bound on reports the
+   same results (script pauses, encoding suspensions, end()), leaves the same unread input, has consumed the same number
+   of characters, ends in the same configuration up to current_char, and has delivered the same tokens up to [obs]:
+   TError entries dropped, adjacent TChars entries merged into one (annotated with the line and consumed-count of the
+   LAST character token of the group), every other token kept with its line and consumed-count.
+   Proof: a stuttering simulation (one fast step on a run r = |r| slow steps) under the decidable table conditions
+   below. *)
+Theorem C08_exact_errors_changes_only_errors_and_text_cuts :
+  forall ent c1 sk fuel inject chunks (m : mach hstate queue) log,
+  let rf := drive_chunked html_flavour false html_table html_simd ent c1 sk fuel inject chunks m log in
+  regular (snd rf) ->
+  exists k, forall j,
+    let rs := drive_chunked html_flavour true html_table html_simd ent c1 sk (k + j) inject chunks m log in
+    snd rs = snd rf /\ obs (mout (fst rs)) = obs (mout (fst rf)) /\ ceq (mc (fst rs)) (mc (fst rf)) /\
+    mq (fst rs) = mq (fst rf) /\ mcons (fst rs) = mcons (fst rf).
+Proof. exact html_bulk_chunked_obs. Qed.
+Print Assumptions C08_exact_errors_changes_only_errors_and_text_cuts.
+
+(* the same for the flat queue with unit runs (the reference semantics' queue) *)
+Theorem C08_exact_errors_flat_unit_runs :
+  forall ent c1 sk fuel inject chunks (m : mach hstate (list N)) log,
+  let rf := drive_flat html_flavour false html_table html_simd ent c1 sk fuel inject chunks m log in
+  regular (snd rf) ->
+  exists k, forall j,
+    let rs := drive_flat html_flavour true html_table html_simd ent c1 sk (k + j) inject chunks m log in
+    snd rs = snd rf /\ obs (mout (fst rs)) = obs (mout (fst rf)) /\ ceq (mc (fst rs)) (mc (fst rf)) /\
+    mq (fst rs) = mq (fst rf) /\ mcons (fst rs) = mcons (fst rf).
+Proof. exact html_bulk_flat_obs. Qed.
+Print Assumptions C08_exact_errors_flat_unit_runs.
+
+(* the table conditions of the simulation, decided on the regenerated table: every step body is either a bulk read whose
+   set contains CR, LF, NUL, whose per-character arm treats every character outside the set (and, for the SIMD state,
+   outside the scan's stop set, which lies inside the first-character guard and counts only LF) like the run arm for one
+   character up to Error commands, or a body without bulk read; an arm reconsumes only after having read a character in
+   the same step; EOF arms do not read *)
+Theorem C08_bulk_table_conditions :
+  (forall s, step_ok simd_first_guard simd_tail_stop simd_tail_newline hstate_beq (html_step s) = true) /\
+  (forall s, ok_body false false (html_eof s) = true).
+Proof. split; [exact html_step_ok_all|exact html_eof_lockstep_all]. Qed.
+Print Assumptions C08_bulk_table_conditions.
+
+(* non-vacuity (a test, by computation): text runs with a line feed, attribute values with NUL, a quote and a character
+   reference, NUL and a bad character in text: the default-mode run delivers 11 entries (2 parse errors), the exact-mode
+   reference run 19 (4 parse errors) - the raw token lists differ - and both have the same 7 observable tokens *)
+Example C08_bulk_obs_example :
+  regular_b (snd ex_fast) = true /\ snd ex_fast = snd ex_ref /\
+  obs (mout (fst ex_fast)) = obs (mout (fst ex_ref)) /\
+  (length (mout (fst ex_fast)), length (mout (fst ex_ref)), length (obs (mout (fst ex_ref)))) = (11, 19, 7)%nat /\
+  (length (filter is_error (mout (fst ex_fast))), length (filter is_error (mout (fst ex_ref)))) = (2, 4)%nat /\
+  rev (obs (mout (fst ex_ref))) =
+    [(TChars [97; 98; 10; 99; 100], 2, 5);
+     (TTag TStartTag [112] false [([116], [120; 65533; 121; 38; 122]); ([117], [118; 34; 119])] false, 2, 28);
+     (TChars [101; 60; 102], 2, 34); (TNull, 2, 35); (TChars [103; 1; 104], 2, 38);
+     (TTag TEndTag [112] false [] false, 2, 42); (TEof, 2, 42)]%N.
+Proof. exact ex_bulk_obs. Qed.
+Print Assumptions C08_bulk_obs_example.
